@@ -108,4 +108,78 @@ def module_level_state_writers():
     ]
 
 
-STRUCTURAL = [module_level_state_writers]
+# interpreter-wide switches: state that lives OUTSIDE pandera but is shared by every thread of the process.  `warnings.catch_warnings`
+# swaps the process-wide `warnings.filters` list (not thread-local before Python 3.14's opt-in context-aware warnings): a filter
+# installed around one thread's step silences - or, restored out of order, keeps silencing - another thread's SchemaWarning.
+SWITCHES = {
+    "warnings": {"catch_warnings", "simplefilter", "filterwarnings", "resetwarnings"},
+    "os": {"putenv", "unsetenv", "chdir", "umask"},
+    "sys": {"setrecursionlimit", "setswitchinterval", "settrace", "setprofile"},
+    "locale": {"setlocale"},
+    "np": {"seterr", "errstate", "seterrcall", "set_printoptions"}, "numpy": {"seterr", "errstate", "seterrcall", "set_printoptions"},
+    "pd": {"set_option", "option_context", "reset_option"}, "pandas": {"set_option", "option_context", "reset_option"},
+    "ps": {"set_option", "option_context", "reset_option"},
+    "random": {"seed"}, "decimal": {"setcontext"}, "pl": {"Config"},
+}
+DOCUMENTED_SWITCHES = {
+    # Schema.example(): a convenience of the data-synthesis API (C13), never on a validation path
+    ("pandera.api.pandas.array", "example", "warnings.catch_warnings"), ("pandera.api.pandas.array", "example", "warnings.simplefilter"),
+    ("pandera.api.pandas.components", "example", "warnings.catch_warnings"), ("pandera.api.pandas.components", "example", "warnings.simplefilter"),
+    ("pandera.api.pandas.container", "example", "warnings.catch_warnings"), ("pandera.api.pandas.container", "example", "warnings.simplefilter"),
+    # pyspark.pandas only (not among the back ends of C07): its option context is needed to combine frames
+    ("pandera.backends.pandas.container", "check_column_values_are_unique", "ps.option_context"),
+    ("pandera.backends.pandas.array", "check_unique", "ps.option_context"),
+}
+
+
+def interpreter_wide_switches():
+    repo = os.environ.get("PANDERA_REPO", "/repo")
+    found = {}
+    nfun = 0
+    for p in sorted(glob.glob(os.path.join(repo, "pandera", "**", "*.py"), recursive=True)):
+        try:
+            tree = ast.parse(open(p).read())
+        except SyntaxError:
+            continue
+        mod = os.path.relpath(p, repo)[:-3].replace(os.sep, ".")
+        if mod.endswith(".__init__"):
+            mod = mod[: -len(".__init__")]
+        if mod.startswith("pandera.strategies") or mod == "pandera.external_config":
+            continue  # data synthesis (C13) / import-time environment set-up and restore, before any validation can run
+        # names bound by `from warnings import catch_warnings` etc.
+        direct = {}
+        for n in ast.walk(tree):
+            if isinstance(n, ast.ImportFrom) and n.module in SWITCHES:
+                for a in n.names:
+                    if a.name in SWITCHES[n.module]:
+                        direct[a.asname or a.name] = f"{n.module}.{a.name}"
+        for fn in ast.walk(tree):
+            if not isinstance(fn, (ast.FunctionDef, ast.AsyncFunctionDef)):
+                continue
+            nfun += 1
+            for n in ast.walk(fn):
+                if not isinstance(n, ast.Call):
+                    continue
+                f = n.func
+                what = None
+                if isinstance(f, ast.Attribute) and isinstance(f.value, ast.Name) and f.attr in SWITCHES.get(f.value.id, ()):
+                    what = f"{f.value.id}.{f.attr}"
+                elif isinstance(f, ast.Name) and f.id in direct:
+                    what = direct[f.id]
+                elif isinstance(f, ast.Attribute) and f.attr in ("__setitem__", "setdefault", "update", "pop") and ast.unparse(f.value) == "os.environ":
+                    what = "os.environ"
+                if what:
+                    found.setdefault((mod, fn.name, what), n.lineno)
+            for n in ast.walk(fn):
+                if isinstance(n, (ast.Assign, ast.Delete)):
+                    for t in n.targets:
+                        if isinstance(t, ast.Subscript) and ast.unparse(t.value) == "os.environ":
+                            found.setdefault((mod, fn.name, "os.environ"), n.lineno)
+    undocumented = [{"module": m, "function": f, "switch": s, "line": ln} for (m, f, s), ln in sorted(found.items()) if (m, f, s) not in DOCUMENTED_SWITCHES]
+    return [{"oid": "structural.interpreter_wide_switches/only_the_documented_functions_flip_them", "ok": not undocumented,
+             "note": f"{nfun} functions scanned for warnings filters / os.environ / numpy, pandas, polars option switches / seeds: {len(found)} uses "
+                     f"(documented: {len(DOCUMENTED_SWITCHES)}: Schema.example and the pyspark.pandas option context)",
+             "witness": {"undocumented": undocumented[:8]}}]
+
+
+STRUCTURAL = [module_level_state_writers, interpreter_wide_switches]
